@@ -1446,7 +1446,12 @@ def record_equal(ex, a, b):
             return False
         if isinstance(a.kind, str) and isinstance(b.kind, str) and a.kind != b.kind:
             return False
-        return mk_bool(z3.And(field_equal(term(a.kind), term(b.kind)), *[field_equal(term(x), term(y)) for x, y in zip(a.fields, b.fields)]))
+        fixed = mk_bool(z3.And(field_equal(term(a.kind), term(b.kind)), *[field_equal(term(x), term(y)) for x, y in zip(a.fields, b.fields)]))
+        if a.tail is None and b.tail is None:
+            return fixed
+        ta = a.tail if a.tail is not None else SeqV("list")
+        tb = b.tail if b.tail is not None else SeqV("list")
+        return and_(ex, fixed, seq_equal(ex, ta, tb))
     rec, s = (a, b) if isinstance(a, RecV) else (b, a)
     if isinstance(s, str):
         st = z3.StringVal(s)
@@ -1454,6 +1459,13 @@ def record_equal(ex, a, b):
         st = s.t
     else:
         return False
+    if rec.tail is not None:
+        n = seq_len(rec.tail)
+        if isinstance(n, int):
+            rec = RecV(rec.kind, rec.fields + rec.tail.concrete_items(), rec.sep)
+        else:
+            # undetermined here: an unconstrained boolean (gives no information in either polarity)
+            return mk_bool(z3.Bool(ex.p.fresh_name("rec_vs_str")))
     fields = rope_fields(st, rec.sep)
     want = [term(rec.kind)] + [term(f) for f in rec.fields]
     if len(fields) != len(want):
